@@ -267,7 +267,7 @@ def retention(ctx, res):
     peer controls as many datagrams as it likes: whatever a datagram leaves behind for good —
     entries in process-wide caches keyed by something taken from the datagram — adds up.  Two
     streams of N distinct datagrams; the memory still traced afterwards must stay below a fifth of
-    the octets delivered (+ 400 kB of slack for interpreter noise)."""
+    the octets delivered (+ 150 kB of slack for interpreter noise)."""
     import gc
 
     from harness.c19 import Listener
@@ -287,8 +287,8 @@ def retention(ctx, res):
             total = 0
             for i in range(n):
                 filler = bytes((i * 7 + k) % 251 for k in range(6000))
-                # odd: another unknown version each time, itself a 6000-octet INTEGER; even: another community
-                dg = B.enc_community_msg(int.from_bytes(b"\x01" + filler, "big"), b"public", pdu) if i % 2 else B.enc_community_msg(1, filler, pdu)
+                # another unknown version each time, itself a 6000-octet INTEGER; every third one a foreign community instead
+                dg = B.enc_community_msg(1, filler, pdu) if i % 3 == 0 else B.enc_community_msg(int.from_bytes(b"\x01" + filler, "big"), b"public", pdu)
                 total += len(dg)
                 lst.inject([("10.0.%d.%d" % (i // 250, i % 250 + 1), 2000 + i, dg)])
             gc.collect()
@@ -297,8 +297,9 @@ def retention(ctx, res):
             lst.close()
         res.evaluations += 1
         res.count("retention:trap-listener")
-        if grown > total // 5 + 400_000:
-            res.violate("retention", {"entry": "trap", "datagrams": n, "octets": total}, f"at most {total // 5 + 400_000} octets retained", grown,
+        res.count("retention:trap-listener:retained-kB", max(0, grown) // 1000)
+        if grown > total // 5 + 150_000:
+            res.violate("retention", {"entry": "trap", "datagrams": n, "octets": total}, f"at most {total // 5 + 150_000} octets retained", grown,
                         "memory stays allocated in proportion to the number of datagrams a trap listener has seen", {"kind": "retained-memory", "entry": "trap"})
         # (b) a v3 client whose requests are answered by forged responses, each naming another (large)
         # authoritative engine id with the auth flag set: refused — and nothing may be left behind
@@ -337,11 +338,12 @@ def retention(ctx, res):
             total = n * 8100
             res.evaluations += 1
             res.count(f"retention:forged-v3-responses:{method}")
+            res.count(f"retention:forged-v3-responses:{method}:retained-kB", max(0, grown) // 1000)
             case = {"entry": "response", "level": method, "datagrams": n, "octets": total, "refused": refused}
             if refused != n:
                 res.violate("retention", case, "every forged response refused", refused, "a forged response (foreign engine id, wrong digest) was not refused", {"kind": "forged-accepted"})
-            elif grown > total // 5 + 400_000:
-                res.violate("retention", case, f"at most {total // 5 + 400_000} octets retained", grown,
+            elif grown > total // 5 + 150_000:
+                res.violate("retention", case, f"at most {total // 5 + 150_000} octets retained", grown,
                             "memory stays allocated in proportion to the number of (refused) responses a client has seen", {"kind": "retained-memory", "entry": "response"})
             after = follow_up(client)
             if after != ("ok", ["str", "6f6b"]):
